@@ -146,4 +146,21 @@ def clearing (dist : Fixed64 → Option (RMap × Fixed64)) (smooth : Bool) (b : 
 def coinbaseRoundCheck (rr : RMap) (outs : List (Key × Fixed64)) : Bool :=
   rr.length == outs.length && outs.all (fun o => rr.get o.1 == some o.2)
 
+/-! ### the DPoS 2.0 per-block split (getDPoSV2RewardsV2) -/
+
+inductive V2Key | owner | crc (i : Nat) | voter (j : Nat)
+  deriving DecidableEq, Repr
+
+/-- getDPoSV2RewardsV2: `crcMatch` = the current CRC arbiter whose node key is the sponsor (it is
+    paid the whole block reward as CR), otherwise `producerKnown` = the sponsor is a registered
+    producer: `shares` are the voters' parts `Fixed64(N_v / ΣN · float64(reward*3/4))` (float, a
+    parameter here) and the producer's owner gets the rest. -/
+def v2Split (reward : Fixed64) (crcMatch : Option Nat) (producerKnown : Bool)
+    (shares : List (Nat × Fixed64)) : List (V2Key × Fixed64) :=
+  match crcMatch with
+  | some i => [(.crc i, reward)]
+  | none =>
+    if !producerKnown then []
+    else shares.map (fun s => (V2Key.voter s.1, s.2)) ++ [(.owner, reward - sumW (shares.map (·.2)))]
+
 end ElaVerif.Distribute
